@@ -8,6 +8,7 @@ CONSTANTS
   ABORTS = FALSE
   RESETONERR = TRUE
   EOMCTX = TRUE
+  KEEPOPEN = TRUE
   GEN = TRUE
 CONSTRAINT GenPrint
 CHECK_DEADLOCK FALSE
